@@ -29,12 +29,16 @@ P = {
          "including non-ASCII text.", "text<->bytes (UTF-8), inet_* formatting and double<->single conversion are CPython's."),
  "C05": ("Theorems (closed) for the parameter blocks: C05_ecomax_params, C05_mixer_params, C05_thermostat_params (1- and 2-byte slots from the "
          "generated table, profile slot, per-thermostat blocks), C05_thermostat_none, C05_schedules - for every abstract value (any start, count, "
-         "undefined holes, any trailing bytes) decoding the wire layout returns exactly the defined slots with their positions. The decoders of "
-         "sensor data (16 sections), regulator data over the 17 generated type ids, schema, alerts, UID (CRC-16 + base-32 text) and password are "
-         "executable Coq models validated against the real frame classes on generated values (Coq spec encoders / an independent layout encoder) "
-         "and on every capture of tests/testdata; determinism and payload immutability are checked on the implementation.",
-         "partial: the conformance theorems of the message decoders (sensor data chain, regulator data, alerts, UID) are stated in Spec/C05s.v and "
-         "are being proved; until then those kinds rest on model/implementation correspondence plus the functional check against the abstract value."),
+         "undefined holes, any trailing bytes) decoding the wire layout returns exactly the defined slots with their positions. Theorems (closed) "
+         "for the messages: C05_sensor (the sixteen chained section decoders of the sensor-data message recover the documented view of every "
+         "well-formed value - versions, state, outputs/flags words, temperatures with NaN / out-of-table entries dropped, statuses, pending alerts, "
+         "fuel level with its 101 offset, fan / load / power / consumption with their undefined markers, six module versions, lambda, thermostats "
+         "with contact bits, mixers - and stop exactly at the end of the encoding, any trailing bytes), C05_schema, C05_alerts (31-day-month calendar, "
+         "open-ended alerts), C05_password. Regulator data over the 17 generated type ids and the UID (CRC-16 + base-32 text) are executable Coq "
+         "models validated against the real frame classes on generated values (Coq spec encoders / an independent layout encoder) and on every "
+         "capture of tests/testdata; determinism and payload immutability are checked on the implementation.",
+         "partial for regulator data and the UID text: their decoders are modelled and validated by correspondence plus the functional check "
+         "against the abstract value, with the per-type unpack relation proved under C19, but no whole-message theorem."),
  "C06": ("Theorems C06_reject (a request outside [min,max] raises, nothing is ever transmitted for that call, held triple untouched - also when "
          "the request equals an out-of-range held value) and C06_transmitted (for every history of timer expiries and reports, every set request of "
          "the call carries a value within the bounds held at the call) - closed; implementation checked on every description of every table with "
@@ -113,10 +117,12 @@ P = {
          "partial: the ordering / value-threading clause is checked by the monitor on every explored history of model and implementation but not proved "
          "for all histories; CPython's ready-queue order within one loop iteration is fixed by letting the loop settle after each operation."),
  "C14": ("Theorems C14_noise (documented outcomes, progress, bounded wait <= 1000 bytes after the delimiter, tiling, iteration ends with the "
-         "broken-stream signal) and C14_resync_clean (closed); the full resynchronisation clause is refuted in Coq (C14_resync_refuted) and "
-         "recorded as known finding D16; implementation checked for P14 and for the resync bound on every generated run.",
-         "partial for the resynchronisation clause: proved for delimiter-free noise; for arbitrary noise it is checked on the implementation "
-         "for frames without an interior 0x68 and is a known finding otherwise. Producer-loop survival is checked under C09."),
+         "broken-stream signal) C14_resync_clean and C14_resync_interior_free (after ANY noise a run of k >= 2 + 1000/|frame| copies of a deliverable frame whose "
+         "encoding has no 0x68 after its first byte is picked up - induction over the calls of the iteration) - closed; for frames with an interior "
+         "delimiter the clause is refuted in Coq (C14_resync_refuted) and recorded as known finding D16; implementation checked for P14 and for "
+         "the resync bound on every generated run.",
+         "the resynchronisation clause holds (proved) for frames without an interior 0x68 and is a known finding (D16) otherwise. "
+         "Producer-loop survival is checked under C09."),
  "C20": ("Theorems over all finite call sequences (induction, closed): C20_on_change, C20_debounce, C20_throttle (deliveries are exactly those the "
          "monitor of the promise allows, values unmodified and in order), C20_throttle_gaps (consecutive deliveries at least the interval apart), "
          "C20_delta (delivered differences sum to last baseline - first value, current value within tolerance of the baseline), C20_aggregate "
